@@ -27,3 +27,25 @@ def register(P):
     reg(P, "C05", ["UtpVerif.Props.C05"], ["window"])
     reg(P, "C07", ["UtpVerif.Props.C07"], ["ack_timeliness"])
     reg(P, "C17", ["UtpVerif.Props.C17"], ["stream_content"])
+    reg(P, "C01", ["UtpVerif.Props.C01"], ["stream_content"], ["segs", "txring", "rx"])
+    reg(P, "C02", ["UtpVerif.Props.C02"], ["calls_resolve", "ack_timeliness"], ["txring", "rx"])
+    reg(P, "C03", ["UtpVerif.Props.C03"], ["calls_resolve", "stream_content"], ["txring", "rx"])
+    reg(P, "C06", ["UtpVerif.Props.C06"], ["stream_content"], ["segs"])
+    reg(P, "C08", ["UtpVerif.Props.C08"], ["calls_resolve"])
+    reg(P, "C10", ["UtpVerif.Props.C10"], ["bug_errors"], ["segs", "rx", "wire"])
+    # component oracles of the extra components
+    P.PROPS["C01"]["oracles"]["segs"] = lambda case, impl: P.SEGS_ORACLE(case, impl)
+    P.PROPS["C06"]["oracles"]["segs"] = lambda case, impl: P.SEGS_ORACLE(case, impl)
+    P.PROPS["C10"]["oracles"]["segs"] = lambda case, impl: P.SEGS_ORACLE(case, impl)
+    for pid in ("C01", "C02", "C03"):
+        P.PROPS[pid]["oracles"]["txring"] = P.PROPS["C19"]["oracles"]["txring"]
+        P.PROPS[pid]["oracles"]["rx"] = P.PROPS["C04"]["oracles"]["rx"]
+    P.PROPS["C10"]["oracles"]["rx"] = P.PROPS["C04"]["oracles"]["rx"]
+    P.PROPS["C10"]["oracles"]["wire"] = P.PROPS["C11"]["oracles"]["wire"]
+    # connection-level parts of component properties
+    P.PROPS["C14"]["components"].append("vsock")
+    P.PROPS["C14"]["oracles"]["datagram_sizes"] = VO.ALL["datagram_sizes"]
+    P.PROPS["C14"]["oracles"]["stream_content"] = VO.ALL["stream_content"]
+    P.ORACLE_COMPONENT["datagram_sizes"] = "vsock"
+    P.PROPS["C04"]["components"].append("vsock")
+    P.PROPS["C19"]["components"].append("vsock")
